@@ -371,14 +371,26 @@ func (c *C07Case) viaCompiler() (*Violation, string) {
 	o := Opts{FontJSON: c.fontJSON()}
 	font := c.Font
 	var params []string
-	named := func(k string, v any) string { return fmt.Sprintf("%s=%v", k, v) }
+	// numbers may be written in hex (the case seed decides, deterministically)
+	num := func(v int) string {
+		if v > 0 && (v+c.Plumb+len(c.Items))%3 == 0 {
+			return fmt.Sprintf("0x%X", v)
+		}
+		return fmt.Sprint(v)
+	}
+	named := func(k string, v any) string {
+		if n, ok := v.(int); ok {
+			return fmt.Sprintf("%s=%s", k, num(n))
+		}
+		return fmt.Sprintf("%s=%v", k, v)
+	}
 	switch c.Plumb {
 	case 1: // everything from the font config (numLines/overlap/maxLen of font F)
 		font.MaxLen, font.Lines, font.Overlap = c.MaxLen, c.Lines, c.Overlap
 	case 2: // positional font id + length, rest named
-		params = []string{`"F"`, fmt.Sprint(c.MaxLen), named("numLines", c.Lines), named("cursorOverlapWidth", c.Overlap)}
+		params = []string{`"F"`, num(c.MaxLen), named("numLines", c.Lines), named("cursorOverlapWidth", c.Overlap)}
 	case 3: // positional length + font id
-		params = []string{fmt.Sprint(c.MaxLen), `"F"`, named("cursorOverlapWidth", c.Overlap), named("numLines", c.Lines)}
+		params = []string{num(c.MaxLen), `"F"`, named("cursorOverlapWidth", c.Overlap), named("numLines", c.Lines)}
 	case 4: // all named, in some order
 		params = []string{named("numLines", c.Lines), named("maxLineLength", c.MaxLen), named("fontId", `"F"`), named("cursorOverlapWidth", c.Overlap)}
 	case 5: // CLI defaults for font and length, config for the rest; the config's default font is another one
